@@ -557,8 +557,45 @@ def minimise_witness(d, prop, lines, sig):
     return head + body + last
 
 
+GEN_FILE = os.path.join(LEAN, "MorfuseModel", "Gen", "DispatchGen.lean")
+GEN_TEMPLATE = """/-! GENERATED by tools/props/c16.py from $VERIF_REPO/src/Script/EventSystem.cpp on every run — do not edit.
+`EventSystem::FindEventInfo(eventName_t s)` reads `if (s > 0 && s %s eventDefName.size())`. -/
+namespace Morfuse.Dispatch.Gen
+
+/-- is the upper comparison in `FindEventInfo(eventName_t)` `<=` (true) or `<` (false)? -/
+def findEventInfoInclusive : Bool := %s
+
+end Morfuse.Dispatch.Gen
+"""
+
+
+def translate(ctx):
+    """(T) the one comparison the index-based look-up clause hinges on is read from the source; the
+    model and the theorems that depend on it (`C16_index_lookup_*`) are re-checked against it"""
+    path = os.path.join(common.REPO, "src", "Script", "EventSystem.cpp")
+    src = re.sub(r"//[^\n]*", "", open(path, errors="replace").read())
+    m = re.search(r"EventSystem::FindEventInfo\s*\(\s*eventName_t\s+(\w+)\s*\)\s*const\s*\{(.*?)\n\}", src, re.S)
+    op = None
+    if m:
+        v = m.group(1)
+        c = re.search(r"if\s*\(\s*%s\s*>\s*0\s*&&\s*%s\s*(<=|<)\s*eventDefName\s*\.\s*size\s*\(\s*\)\s*\)\s*\{\s*return\s*&\s*commandList\s*\[\s*%s\s*\]\s*;\s*\}\s*return\s+nullptr\s*;" % (v, v, v), m.group(2))
+        if c:
+            op = c.group(1)
+    ctx.oblige("(T) EventSystem::FindEventInfo(eventName_t) has the shape the model transcribes (`s > 0 && s </<= eventDefName.size()`)",
+               op is not None, "the function body changed: lean/MorfuseModel/Dispatch/Model.lean `findEventInfoOk` must be re-transcribed")
+    inclusive = op == "<="
+    with common.LakeLock():
+        common.write_if_changed(GEN_FILE, GEN_TEMPLATE % (op or "<", "true" if inclusive else "false"))
+    ctx.stats["findEventInfo_comparison"] = op or "unreadable"
+    return inclusive
+
+
 def check(ctx):
+    inclusive = translate(ctx)
     proofs_ok, _ = common.proof_side(ctx, PROPS_MODULE, PROPS_FILE)
+    ctx.notes.append("index-based look-up clause: " + (
+        "source compares with `<=`: clause proved in full (C16_index_lookup_complete, C16_commanddelay_fixed apply)" if inclusive else
+        "source compares with `<`: clause FALSE for the last name index (C16_index_lookup_refuses_last is the model witness; the run replays its analogue on the real registry -> D17); proved part: C16_index_lookup_partial, C16_commanddelay_partial"))
     if ctx.tier == "thorough":
         common.leanchecker(ctx, PROPS_MODULE)
     exe = build(ctx)
@@ -628,6 +665,7 @@ def check(ctx):
 
 
 def replay(ctx, obj):
+    translate(ctx)
     common.lake_build()
     exe = build(ctx)
     pre = read_dump(ctx, exe)
